@@ -41,7 +41,12 @@ def gen_cases(ctx, scale):
     for i in range(300 * scale):
         n = r.range(0, 63); bc = 2 ** n
         cases.append('nx %s %d %d %d' % (r.choice(['o2', 'o8']), r.below(bc), bc, r.below(bc)))
-    for n in range(0, 13 if scale == 1 else 21):
+    top = 2 ** 20 if scale == 1 else 2 ** 26
+    step = top // 8
+    for kind in ('o2', 'n1', 'o8'):
+        for lo in range(0, top, step):
+            cases.append('sweep %s %d %d' % (kind, lo, lo + step))
+    for n in range(0, 13 if scale == 1 else 25):
         for kind in ('o2', 'o8'):
             cases.append('cov %s %d %d' % (kind, n, r.below(2 ** n)))
     return cases
@@ -102,6 +107,10 @@ def oracle(ctx, cases, impl_lines):
                         bad.append((c, out, 'insertion reported "Hash table is full" although a bucket still had room'))
                     # a bound > 7 (Open8) / any displaced element makes the case non-trivial
                     if any(int(x.split(':')[2]) > 0 for x in out.split(' ')[0].split(';') if x): ctx.nontrivial.add(c[:200])
+            elif w[0] == 'sweep':
+                if out.strip() != 'ok':
+                    bad.append((c, out, 'encoder bound below a recorded probe in the exhaustive sweep: ' + out))
+                ctx.nontrivial.add(c)
             elif w[0] == 'cov':
                 if int(out) != 2 ** int(w[2]):
                     bad.append((c, out, 'probe sequence visits %s of %d buckets' % (out, 2 ** int(w[2]))))
@@ -151,7 +160,7 @@ def run(ctx):
         for (i, c, a, b) in mism_t[:2]:
             ctx.violation('table-level model and real HashSet disagree', {'case': c, 'impl': a, 'model': b}, found_input=True)
         cases = cases + tcases
-        corr_cases = [c for c in cases if not c.startswith('cov') and not c.startswith('tblm')]
+        corr_cases = [c for c in cases if not c.startswith('cov') and not c.startswith('tblm') and not c.startswith('sweep')]
         mism, _ = ctx.correspond('translator-validation', corr_cases, [harness], [ctx.model_exe])
         ctx.tie_obligations.append({'name': 'generated Gallina == real C++ on %d cases' % len(corr_cases), 'ok': not mism})
         for (i, c, a, b) in mism[:3]:
@@ -171,10 +180,11 @@ def run(ctx):
         ctx.violation(why, {'case': c, 'impl_output': out, 'cmd': 'echo "%s" | build/C13/harness' % c}, found_input=True)
     for c in cases[::max(1, len(cases) // 6)][:6]:
         ctx.add_sample(c)
-    ctx.coverage['input_distribution'] = {k: sum(1 for c in cases if c.startswith(k)) for k in ('o2', 'n1', 'nx', 'cov', 'tblm')}
+    ctx.coverage['input_distribution'] = {k: sum(1 for c in cases if c.startswith(k)) for k in ('o2', 'n1', 'nx', 'cov', 'tblm', 'sweep')}
     return ctx.finish(rule=RULE)
 
 RULE = ('cases = boundary grid (0,1,2^k-1,2^k,2^k+1 up to 2^63) x all byte states (translator validation) + random update '
-        'histories from the empty bucket + exhaustive probes 1..3000*scale + probe-sequence coverage for table sizes 2^0..2^12 '
-        '(2^20 thorough); distinct = distinct case line; non-trivial = history whose largest probe needs the lossy encoding '
+        'histories from the empty bucket + exhaustive probes 1..3000*scale via model+code and 0..2^20 (thorough 2^26) on the real '
+        'encoders (fresh + accumulating bucket) + probe-sequence coverage for table sizes 2^0..2^12 (2^24 thorough) + real HashSet '
+        'tables (Open2N2<3>, Open8; 2^4..2^6 buckets; also filled to the last slot) against the table-level model; distinct = distinct case line; non-trivial = history whose largest probe needs the lossy encoding '
         '(>255 for Open2N2, >7 for OpenN1) or a coverage run with more than 4 buckets')
